@@ -683,6 +683,42 @@ def _issubclass(ex, st, args, kwargs):
         names = [c.qualname for c in bm.class_mro(ex, a)] + bm.class_base_names(ex, a)
         yield st, b.qualname.split(".")[-1] in [n.split(".")[-1] for n in names]
         return
+    def real(x):
+        # builtin / standard-library classes named by the source: the real class objects answer (language facts)
+        import builtins
+        import datetime as _dt
+        import decimal
+        from xml.etree.ElementTree import QName as _Q
+        known = {"decimal.Decimal": decimal.Decimal, "datetime.datetime": _dt.datetime, "datetime.date": _dt.date, "datetime.time": _dt.time,
+                 "xml.etree.ElementTree.QName": _Q}
+        if isinstance(x, TypeRef) and isinstance(getattr(builtins, x.name, None), type):
+            return getattr(builtins, x.name)
+        if isinstance(x, ClassRef):
+            return known.get(f"{x.module}.{x.qualname}")
+        return None
+
+    if isinstance(b, tuple):
+        parts = []
+        for bb in b:
+            outs = list(_issubclass(ex, st, [a, bb], kwargs))
+            if len(outs) != 1 or not isinstance(outs[0][1], bool):
+                raise U("issubclass against a tuple with abstract members")
+            parts.append(outs[0][1])
+        yield st, any(parts)
+        return
+    ra, rb = real(a), real(b)
+    if ra is not None and rb is not None:
+        yield st, issubclass(ra, rb)
+        return
+    if (ra is None) != (rb is None) and all(isinstance(x, (TypeRef, ClassRef)) for x in (a, b)):
+        # a class of the repository against a builtin (or the other way round): related only through `object`
+        repo, other = (a, rb) if ra is None else (b, ra)
+        if ra is None:
+            names = [c.qualname.split(".")[-1] for c in bm.class_mro(ex, a)] + [n.split(".")[-1] for n in bm.class_base_names(ex, a)]
+            yield st, rb.__name__ in names or rb is object
+        else:
+            yield st, False
+        return
     raise U("issubclass")
 
 
@@ -775,6 +811,18 @@ def _sorted(ex, st, args, kwargs):
     items = bm.iter_values(ex, st, args[0])
     if items is not None and len(items) <= 1:
         yield st, st.alloc(PList(items))
+        return
+    if items is not None and "key" in kwargs and set(kwargs) <= {"key"} and not any(is_sym(i) for i in items):
+        # concrete items, key function evaluated by the engine (must give one concrete rank per item): a stable sort
+        ranks = []
+        for it in items:
+            outs = list(ex.call(st, kwargs["key"], [it], {}))
+            if len(outs) != 1 or isinstance(outs[0][1], Exc) or is_sym(outs[0][1]):
+                raise U("sorted: the key function does not give one concrete rank per item")
+            st = outs[0][0]
+            ranks.append(outs[0][1])
+        order = sorted(range(len(items)), key=lambda i: ranks[i])
+        yield st, st.alloc(PList([items[i] for i in order]))
         return
     if items is None or "key" in kwargs or any(is_sym(i) for i in items):
         raise U("sorted of symbolic")
@@ -891,6 +939,49 @@ def _regex_test(kind):
                 yield st2, (MatchVal(rx, w) if ok else None)
 
     return h
+
+
+def _match_group(ex, st, m, args, kwargs):
+    """m.group(0) / m.group(): the matched text - known when the whole subject is the match (a one-character subject,
+    or a concrete match)."""
+    if args and args != [0] and tuple(args) != (0,):
+        raise U("match.group(n) for n > 0")
+    if m.concrete is not None:
+        yield st, m.concrete.group(0)
+    elif getattr(m, "whole", False):
+        yield st, m.subject
+    else:
+        raise U("match.group(0) of a match inside a longer symbolic subject")
+
+
+def _regex_sub(ex, st, rx, args, kwargs):
+    """pattern.sub(repl, text): concrete text -> the real re; a ONE-CHARACTER symbolic text -> either the character
+    matches the pattern (then the replacement - a string or a callable applied to the match - is the result) or the
+    text is returned unchanged.  Longer symbolic texts are outside the model."""
+    from .regex import to_z3
+
+    repl, text = args[0], args[1]
+    if not is_sym(text) and not is_sym(repl) and isinstance(repl, str):
+        import re
+
+        yield st, re.sub(rx.pattern, repl, text, flags=rx.flags)
+        return
+    if not (isinstance(text, SV) and text.sort == "str"):
+        raise U("regex.sub of this subject")
+    r = to_z3(rx.pattern, rx.flags)
+    one = z3.Length(text.t) == 1
+    for st1, single in ex.branch(st, _wrap_bool(one)):
+        if not single:
+            raise U("regex.sub of a symbolic text that is not a single character")
+        for st2, hit in ex.branch(st1, _wrap_bool(z3.InRe(text.t, r))):
+            if not hit:
+                yield st2, text
+            elif isinstance(repl, str):
+                yield st2, repl
+            else:
+                m = MatchVal(rx, text)
+                m.whole = True
+                yield from ex.call(st2, repl, [m], {})
 
 
 def _re_module_test(kind):
@@ -1593,7 +1684,7 @@ METHODS = {
     ("dict", "values"): _d_values, ("dict", "copy"): _d_copy, ("dict", "pop"): _d_pop,
     ("dict", "update"): _d_update, ("dict", "clear"): _d_clear, ("set", "__contains__"): _s_contains, ("set", "add"): _s_add,
     ("regex", "search"): _regex_test("search"), ("regex", "match"): _regex_test("match"),
-    ("regex", "fullmatch"): _regex_test("fullmatch"), ("match", "groups"): _match_groups,
+    ("regex", "fullmatch"): _regex_test("fullmatch"), ("match", "groups"): _match_groups, ("match", "group"): _match_group, ("regex", "sub"): _regex_sub,
 }
 
 
